@@ -191,8 +191,9 @@ func (t *irGen) chainStep(reorgDepth int) {
 func genImp(g *Gen) {
 	nHist := g.Scale(70, 1000)
 	nLong := g.Scale(5, 50)
-	for h := 0; h < nHist; h++ {
-		genImpHistory(g, h < nLong, h)
+	for h := 0; h < nHist || (!g.Covered() && h < 4*nHist); h++ {
+		// (beyond the budget: long histories in turn, they carry most of the required classes)
+		genImpHistory(g, h < nLong || (h >= nHist && h%2 == 0), h)
 	}
 }
 
@@ -310,6 +311,14 @@ func genImpHistory(g *Gen, long bool, idx int) {
 		t.op("impstep-at-boundary", "i2 impsteps %s 1", w)
 		t.op("i2-use-importing", "i2 use %s", w)
 		t.op("i2-wallets", "i2 wallets")
+		if tip := len(l.chain) - 1; tip > 1000 && tip-999 <= 60 && r.Intn(3) > 0 {
+			// a reorganisation whose lowest replaced block is exactly the block at the cursor (1000):
+			// the cursor has to go back to 999 (notify checks it against the fork point)
+			t.nodeEvent(func() { l.reorgTo(tip-999, 1+r.Intn(2)) })
+			t.drain2()
+			t.op("i2-wallets", "i2 wallets")
+			g.Stats["reorg-at-cursor"]++
+		}
 	}
 	t.op("i2-tasks", "i2 tasks")
 	t.op("i2-wallets", "i2 wallets")
